@@ -25,7 +25,7 @@ RULE = (
 ASSUMPTIONS = [
     "the kernel is the public function pydrex.utils.apply_gbs (named in the property's observe_at)",
     "history clauses that need the seam are skipped (and reported) if the seam is not observable; the black-box floor bound is always checked",
-    "renormalisation compared to 4 ulp relative (numba and numpy sum in different orders)",
+    "renormalisation compared to (4 + n) ulp relative (numba sums sequentially, numpy pairwise)",
 ]
 BOUND = {"quick": "kernel n <= 8; histories depth 2", "thorough": "kernel n <= 8 plus n = 50; histories depth 3"}
 
@@ -171,7 +171,8 @@ def run_kernel(key):
         if S > 0 and np.isfinite(S):
             ref = ref / S
             err = np.abs(fo - ref)
-            if np.any(err > 4 * np.spacing(np.maximum(ref, 1e-300)) + 1e-300):
+            # numba sums sequentially, numpy pairwise: the normaliser may differ by ~n ulp
+            if np.any(err > (4 + n) * np.spacing(np.maximum(ref, 1e-300)) + 1e-300):
                 i = int(np.argmax(err))
                 V(res, key, "floor_renormalise", {"got": float(fo[i]), "expected": float(ref[i]), "masked": bool(mask[i])}, **kk)
             cl["sum_one"] = cl.get("sum_one", 0) + 1
@@ -179,11 +180,11 @@ def run_kernel(key):
                 V(res, key, "sum_one", {"sum": float(fo.sum())}, **kk)
             cl["order_preserved"] = cl.get("order_preserved", 0) + 1
             o = np.argsort(f, kind="stable")
-            if np.any(np.diff(fo[o]) < -4 * np.spacing(fo[o][1:])):
+            if np.any(np.diff(fo[o]) < -(4 + n) * np.spacing(fo[o][1:])):
                 V(res, key, "order_preserved", {"f_sorted_out": fo[o]}, **kk)
             cl["floor_bound"] = cl.get("floor_bound", 0) + 1
             # every returned fraction >= chi/n / S (S <= 1 + chi whenever the input sums to 1)
-            if np.any(fo < thr / S - 4 * np.spacing(thr / S)):
+            if np.any(fo < thr / S - (4 + n) * np.spacing(thr / S)):
                 V(res, key, "floor_bound", {"min": float(fo.min()), "floor": thr / S}, **kk)
         if chi == 0.0:
             cl["chi0_never_masks"] = cl.get("chi0_never_masks", 0) + 1
